@@ -250,8 +250,41 @@ func ruleCURSOR(c *Ctx) {
 								ok = true
 							}
 						}
-						if ok {
-							c.Ok(rule, key, x.Pos(), "the scan offset advances only while l.offset < len(l.source)")
+						// the step is the width of the one character just decoded; longer jumps must go
+						// through rewind(), which recounts the lines it passes
+						stepOK, stepWhy := true, ""
+						seenStep := map[ssa.Value]bool{}
+						var walkStep func(v ssa.Value)
+						walkStep = func(v ssa.Value) {
+							if seenStep[v] {
+								return
+							}
+							seenStep[v] = true
+							switch y := v.(type) {
+							case *ssa.Phi:
+								for _, e := range y.Edges {
+									walkStep(e)
+								}
+							case *ssa.Const:
+								if y.Value == nil || y.Int64() != 1 {
+									stepOK, stepWhy = false, "constant "+vpath(y)
+								}
+							case *ssa.Extract:
+								if call, isCall := y.Tuple.(*ssa.Call); isCall && y.Index == 1 {
+									if g := call.Call.StaticCallee(); g != nil && g.Pkg != nil && g.Pkg.Pkg.Path() == "unicode/utf8" && strings.HasPrefix(g.Name(), "DecodeRune") {
+										return
+									}
+								}
+								stepOK, stepWhy = false, vpath(v)
+							default:
+								stepOK, stepWhy = false, vpath(v)
+							}
+						}
+						walkStep(bo.Y)
+						if ok && !stepOK {
+							c.Bad(rule, key, x.Pos(), "l.scanOffset is advanced by %s, not by the width of the character just decoded: the skipped text bypasses the newline accounting (use rewind, which recounts lines)", normalizePhi(stepWhy))
+						} else if ok {
+							c.Ok(rule, key, x.Pos(), "the scan offset advances only while l.offset < len(l.source), by the width of the decoded character")
 						} else {
 							c.Bad(rule, key, x.Pos(), "l.scanOffset is advanced without the guard l.offset < len(l.source): the cursor can pass the end of the input (token ranges outside the text, slice bounds panic in rewind)")
 						}
